@@ -15,6 +15,7 @@
 //	U unmodelled surface: only "no panic"
 //	D documented panic class (argument class in argdesc): may panic
 //	K codec round trip of an empty geometry (out1 = decoded)
+//	R WKB / WKT round trip of a geometry with inserted empties (out1 = decoded, out2 = the value)
 package main
 
 import (
@@ -484,6 +485,7 @@ func main() {
 		}
 	}
 	// non-empty partners (valid lattice geometries, with and without inserted empties)
+	origins := originPartners()
 	nb := a.N
 	type mixed struct {
 		base, ins *lib.Node
@@ -543,6 +545,17 @@ func main() {
 			}
 		}
 	}
+	// the origin: an empty Point stores zero ordinates, so every base is also run against partners
+	// located exactly at (0 0), in both argument orders, with empties inserted at every position
+	for _, base := range originBases() {
+		for _, p := range everyPositionPlans(base) {
+			addMix(base, p, "origin", origins...)
+		}
+		// a nested plan as well: an empty MultiPoint member holding empty points, next to the base's members
+		if base.Kind == lib.KColl {
+			addMix(base, &Plan{Here: []Ins{{Pos: 0, E: Emp{K: "MPt", N: 2}}}, Kids: []*Plan{{Here: []Ins{{Pos: 0, E: Emp{K: "Pt"}}}}}}, "origin", origins...)
+		}
+	}
 	for i := 0; i < nb; i++ {
 		r := root.Fork()
 		k := lib.Kind(3 + r.Intn(4))
@@ -579,20 +592,30 @@ func main() {
 				em.call("N", "func", f.name, f.op, "WBoth", "x", "(E,E)", da, idump(nbn), o.text, "-", "-")
 			}
 		}
-		ne := nonEmpties[prng.Intn(len(nonEmpties))]
-		gn := ne.Build()
-		dn := idump(ne)
-		for _, f := range freeFns {
-			f := f
-			if f.arity != 2 {
-				continue
+		oneEmpty := []*lib.Node{nonEmpties[prng.Intn(len(nonEmpties))]}
+		// partners at the origin: all of them in the thorough tier, a rotating selection of 4 otherwise
+		if thorough {
+			oneEmpty = append(oneEmpty, origins...)
+		} else {
+			for j := 0; j < 4; j++ {
+				oneEmpty = append(oneEmpty, origins[(i+j*5)%len(origins)])
 			}
+		}
+		for _, ne := range oneEmpty {
+			gn := ne.Build()
+			dn := idump(ne)
 			// the self-union of the other operand, for the rows of the table that name it
 			uu := run(func() []reflect.Value { return ge(geom.UnaryUnion(gn)) })
-			o := run(func() []reflect.Value { return f.call(ga, gn) })
-			em.call("N", "func", f.name, f.op, "WLeft", "x", "(E,G)", da, dn, o.text, uu.text, geomVerdict(o, uu))
-			o = run(func() []reflect.Value { return f.call(gn, ga) })
-			em.call("N", "func", f.name, f.op, "WRight", "x", "(G,E)", dn, da, o.text, uu.text, geomVerdict(o, uu))
+			for _, f := range freeFns {
+				f := f
+				if f.arity != 2 {
+					continue
+				}
+				o := run(func() []reflect.Value { return f.call(ga, gn) })
+				em.call("N", "func", f.name, f.op, "WLeft", "x", "(E,G)", da, dn, o.text, uu.text, geomVerdict(o, uu))
+				o = run(func() []reflect.Value { return f.call(gn, ga) })
+				em.call("N", "func", f.name, f.op, "WRight", "x", "(G,E)", dn, da, o.text, uu.text, geomVerdict(o, uu))
+			}
 		}
 	}
 
@@ -623,6 +646,11 @@ func main() {
 			o1 := run(func() []reflect.Value { return f.call(gi, gi) })
 			o2 := run(func() []reflect.Value { return f.call(gb, gb) })
 			em.call("T", "func", f.name, f.op, "-", tmOf(f.name), "(G')", di, "-", o1.text, o2.text, geomVerdict(o1, o2))
+		}
+		for _, c := range codecs[:2] {
+			c := c
+			o := run(func() []reflect.Value { return c.rt(gi) })
+			em.call("R", "func", c.name, c.op, "-", "x", "(G')", di, "-", o.text, "g:"+lib.Dump(gi)+"|e:nil", "-")
 		}
 		// binary: against an empty, a non-empty, and another mixed geometry, in both positions
 		r := root.Fork()
